@@ -58,9 +58,12 @@ def register2(reg):
             ensures=[('property', ok), ('property', f'{S} == {OS}[:-1] + [{frame_ok}]'), ('property', result_ok)],
             raises={'FailedParse': [f'not ({ok})', f'{S} == {OS}[:-1] + [{frame_fail}]']})
 
-    contract(reg, f'{K}:ParserCore.next_token', ALL + ['C09'], {'self': 'Ctx', 'ri': 'None'}, ret='None', requires=REQ,
+    contract(reg, f'{K}:ParserCore.next_token#none', ALL + ['C09'], {'self': 'Ctx', 'ri': 'None'}, ret='None', requires=REQ,
              defaults={'ri': None},
              ensures=[('property', f'{S} == {OS}[:-1] + [spec_at({OTOP}, {WS})]'), f'{WS} >= {OTOP}.cursor.pos', f'{WS} <= {OTOP}.cursor.len'])
+    contract(reg, f'{K}:ParserCore.next_token#ri', ALL + ['C09', 'C03', 'C04'], {'self': 'Ctx', 'ri': 'RuleInfoR'}, ret='None', requires=REQ,
+             ensures=[('property', f'{S} == {OS}[:-1] + [spec_at({OTOP}, ({OTOP}.cursor.pos if ri.is_tokn else {WS}))]'),
+                      f'{WS} >= {OTOP}.cursor.pos', f'{WS} <= {OTOP}.cursor.len'])
     MATCH = f'spec_token_matches({OTOP}.cursor, {WS}, token)'
     contract(reg, f'{X}:ParseContext.token', ALL + ['C09'], {'self': 'Ctx', 'token': 'str'}, ret='Val', requires=REQ,
              **leaf(MATCH, f'spec_appended(spec_at({OTOP}, min({OTOP}.cursor.len, {WS} + len(token))), token)', 'result == token',
@@ -113,8 +116,8 @@ def register2(reg):
 def register3(reg):
     TOP = f'{S}[-1]'
     SHAPE = [f'top_only({S}, {OS})', f'spec_same_text({OTOP}, {TOP})']
-    contract(reg, 'tatsu/util/misc.py:prune_dict', ['C04', 'C05'], {'d': 'MemoD', 'predicate': 'any'}, ret='None', verify=False,
-             modifies=['d'], note='removes the entries the predicate selects; C04 checks the selection in a bounded run')
+    contract(reg, 'tatsu/util/misc.py:prune_dict', ['C04', 'C05', 'C03'], {'d': 'MemoD', 'predicate': 'any'}, ret='None', verify=False,
+             modifies=['d'], ensures=['submap(d, old_d)'], note='removes the entries the predicate selects; C04 checks the selection in a bounded run')
     contract(reg, f'{K}:ParserCore.cut', ALL, {'self': 'Ctx'}, ret='None', requires=REQ,
              ensures=[('property', f'{S} == {OS}[:-1] + [spec_with_cut({OTOP})]')])
     for variant, pfx in (('', 'func:PARSE'), ('#nosep', 'None')):
